@@ -172,6 +172,38 @@ Definition spec_lookup_all (qn : name) (unchecked sbc : bool) : option lookup_al
     end
   end.
 
+(* ---- the spelling (letter case) of the names an answer reports: the apex as the zone was given
+   it, any other name as in the first record whose owner is that name or lies below it *)
+Definition spelled (m : name) : name :=
+  if name_eqb m (lc apex) then apex
+  else match find (fun r => is_suffixb m (lc (r_owner r))) R with
+       | Some r => skipn (length (r_owner r) - length m) (r_owner r)
+       | None => m
+       end.
+Definition spell_lookup (r : lookup_result) : lookup_result :=
+  match r with
+  | LFound rs s => LFound rs (option_map spelled s)
+  | LCname rs s => LCname rs (option_map spelled s)
+  | LReferral c ns => LReferral (spelled c) ns
+  | LNoRecords s => LNoRecords (option_map spelled s)
+  | LNxDomain => LNxDomain
+  | LWrongZone => LWrongZone
+  end.
+Definition spell_addrs (r : lookup_addrs_result) : lookup_addrs_result :=
+  match r with
+  | AFound a b s => AFound a b (option_map spelled s)
+  | AReferral c ns => AReferral (spelled c) ns
+  | ANxDomain => ANxDomain
+  | AWrongZone => AWrongZone
+  end.
+Definition spell_all (r : lookup_all_result) : lookup_all_result :=
+  match r with
+  | LAFound l s => LAFound l (option_map spelled s)
+  | LAReferral c ns => LAReferral (spelled c) ns
+  | LANxDomain => LANxDomain
+  | LAWrongZone => LAWrongZone
+  end.
+
 (* ---- iteration (C20) *)
 (* every existing name: the apex and all ancestors-or-self of owners down to the apex *)
 Definition spec_nodes_of (r : record) : list name :=
